@@ -76,6 +76,8 @@ def parseRR (s : String) : Option RR :=
     some { name := ← hexDecode n, ttl := ← ttl.toNat?, data := .cname (← hexDecode t) }
   | ["SOA", n, ttl, mb] => do
     some { name := ← hexDecode n, ttl := ← ttl.toNat?, data := .soa (← hexDecode mb) }
+  | ["PTR", n, ttl, t] => do
+    some { name := ← hexDecode n, ttl := ← ttl.toNat?, data := .ptr (← hexDecode t) }
   | ["O", n, ttl, ty, d] => do
     some { name := ← hexDecode n, ttl := ← ttl.toNat?, data := .other (← ty.toNat?) (← hexDecode d) }
   | ["HTTPS", n, ttl, pr, t, ps] => do
@@ -90,6 +92,7 @@ def renderRR (rr : RR) : String :=
   | .aaaa ip => hd "AAAA" ++ renderIP ip
   | .cname t => hd "CNAME" ++ hexEncode t
   | .soa mb => hd "SOA" ++ hexEncode mb
+  | .ptr t => hd "PTR" ++ hexEncode t
   | .other ty d => hd "O" ++ toString ty ++ ":" ++ hexEncode d
   | .https pr t ps =>
     hd "HTTPS" ++ toString pr ++ ":" ++ hexEncode t ++ ":" ++
@@ -155,8 +158,56 @@ structure Case where
   oracles : List OracleEntry
   /-- names of the shipped services having a rule that matches the queried host -/
   svcOracle : List Bytes
+  /-- oracle: `netutil.IPFromReversedAddr` of the queried host -/
+  arpa : Option IP := none
+  /-- the hosts the scripted safe-browsing / parental checkers block -/
+  sbSet : List Bytes := []
+  parentalSet : List Bytes := []
+
+/-- one configured legacy rewrite with the `netip.ParseAddr(Answer)` oracle -/
+def rawRewrite : P C06.Raw := do
+  let d ← bytes
+  let a ← bytes
+  let p ← next
+  let parsed : Option (Bool × Bytes) ←
+    (if p == "none" then pure none else
+     match p.splitOn ":" with
+     | ["4", s] => do let b ← ofOpt (hexDecode s); pure (some (true, b))
+     | ["6", s] => do let b ← ofOpt (hexDecode s); pure (some (false, b))
+     | _ => fail)
+  pure { domain := d, answer := a, parsed := parsed }
+
+def hostsRec : P HostsRec := do
+  let ip ← ipOpt
+  let ip ← ofOpt ip
+  let names ← listOf bytes
+  pure { addr := ip, names := names }
+
+def blockHost : P BlockHost := do
+  let s ← next
+  if s == "-" then pure .empty
+  else match s.splitOn "=" with
+    | ["ip", t] => do
+      let ip ← ofOpt (parseIPTok! t)
+      pure (.ip ip)
+    | ["name", h] => do
+      let n ← ofOpt (hexDecode h)
+      pure (.name n)
+    | _ => fail
 
 def parseCase : P Case := do
+  -- the extension group: rewrites, hosts container, safe browsing / parental
+  let rws ← listOf rawRewrite
+  let hosts ← listOf hostsRec
+  let arpa ← ipOpt
+  let sbEnabled ← bool
+  let parEnabled ← bool
+  let sbHost ← blockHost
+  let parHost ← blockHost
+  let csb ← bool
+  let cpar ← bool
+  let sbSet ← listOf bytes
+  let parSet ← listOf bytes
   let mode ← (do let s ← next; ofOpt (parseMode s))
   let bip4 ← ipOpt
   let bip6 ← ipOpt
@@ -188,21 +239,25 @@ def parseCase : P Case := do
   atEnd
   let client : Option ClientConf :=
     if hasClient then some { name := cname, useOwnSettings := useOwn, filtering := cfilt,
-                             useOwnBlockedServices := useOwnBS, schedNow := cSched, services := cSvc }
+                             useOwnBlockedServices := useOwnBS, schedNow := cSched, services := cSvc,
+                             safeBrowsing := csb, parental := cpar }
     else none
   pure {
     conf := { mode := mode, bip4 := bip4, bip6 := bip6, ttl := ttl, protEnabled := prot, pause := pause,
               filtering := gfilt, aaaaDisabled := aaaaDis, schedNow := gSched, services := gSvc,
-              client := client, clientIP := cip },
+              client := client, clientIP := cip,
+              rewrites := C06.prepare rws, hosts := hosts, sbEnabled := sbEnabled, parentalEnabled := parEnabled,
+              sbHost := sbHost, parentalHost := parHost },
     custom := custom, blockLists := bl, allowLists := al,
     q := { name := qname, qtype := qtype }, up := { rcode := urcode, answer := uans },
-    oracles := oracles, svcOracle := svcO }
+    oracles := oracles, svcOracle := svcO, arpa := arpa, sbSet := sbSet, parentalSet := parSet }
 
 /-! ## observation -/
 
 def parseReason (n : Nat) : Option Reason :=
   match n with
   | 0 => some .notFound | 1 => some .allowList | 3 => some .blockList | 8 => some .blockedService
+  | 4 => some .safeBrowsing | 5 => some .parental | 9 => some .rewritten | 10 => some .autoHosts
   | _ => none
 
 def msgP : P Msg := do
@@ -287,7 +342,11 @@ def classOf (c : Conf) : Outcome → String
     match ql with
     | none => "reserved"
     | some l =>
-      if l.isFiltered then
+      if l.reason == .rewritten then (if log.isEmpty then "rewrite-local" else "rewrite-cname")
+      else if l.reason == .autoHosts then "hosts-container"
+      else if l.reason == .safeBrowsing then "blocked-safebrowsing"
+      else if l.reason == .parental then "blocked-parental"
+      else if l.isFiltered then
         if log.isEmpty then
           (if l.reason == .blockedService then "blocked-service-" else "blocked-rule-") ++ mode
         else "replaced-" ++ mode
@@ -306,6 +365,9 @@ def oracleEngines (cs : Case) : Engines where
   block := fun r => match cs.oracles.find? (fun o => o.host == r.host && o.rrtype == r.qtype) with
     | some o => o.block | none => none
   svc := fun sv h => h == qhost cs.q && cs.svcOracle.contains sv.name
+  sb := fun h => cs.sbSet.contains h
+  parental := fun h => cs.parentalSet.contains h
+  arpa := fun h => if h == qhost cs.q then cs.arpa else none
 
 /-- the bulk list of the reload mode (same lines as `c01Filler` in the harness) -/
 def fillerLines (n : Nat) : List Bytes :=
@@ -321,7 +383,12 @@ def ruleEnginesOf (cs : Case) : Option Engines := do
   let block ← parseLines rs.blockLines
   let allow ← parseLines rs.allowLines
   let svcs := cs.conf.services ++ (match cs.conf.client with | some cl => cl.services | none => [])
-  if svcs.all (fun sv => (parseServiceRules sv.rules).isSome) then pure (ruleEngines block allow) else none
+  if svcs.all (fun sv => (parseServiceRules sv.rules).isSome) then
+    pure { ruleEngines block allow with
+           sb := fun h => cs.sbSet.contains h
+           parental := fun h => cs.parentalSet.contains h
+           arpa := fun h => if h == qhost cs.q then cs.arpa else none }
+  else none
 
 /-- Compare Layer B with the real urlfilter engines' verdicts shipped with the
 case; returns a description of the first difference. -/
